@@ -2,6 +2,8 @@ package orders
 
 import (
 	"fmt"
+	"runtime"
+	"sync"
 
 	"gtsverif/core"
 )
@@ -59,6 +61,16 @@ func (it *Oti) segs(v V, allowNested bool) ([]cellSeg, string) {
 
 // RegionAlgebra decides MINIMIZE / INVERT for all order types of up to kMax segments.
 func RegionAlgebra(p *core.Prog, r *core.Report, kMax int) {
+	regionAlgebra(p, r, kMax, 1)
+}
+
+// RegionAlgebraParallel is RegionAlgebra with the orderings spread over all
+// cores (thorough tier: one more segment).
+func RegionAlgebraParallel(p *core.Prog, r *core.Report, kMax int) {
+	regionAlgebra(p, r, kMax, runtime.NumCPU())
+}
+
+func regionAlgebra(p *core.Prog, r *core.Report, kMax int, workers int) {
 	r.Rule("MINIMIZE", "for every ordering of the endpoints of up to k non-empty segments (either orientation, flat or nested), Minimize returns forward, non-empty, strictly increasing, non-abutting segments whose union is exactly the union of the inputs; decided by abstract interpretation over order types (coordinates are only compared, copied and stored)", 1)
 	r.Rule("INVERT", "for the same orderings with 0 <= every endpoint <= n, InvertLinear returns non-empty segments that together with the minimized segments cover every position of [0,n) exactly once; InvertCircular covers the same positions and merges the last and first gap into one region exactly when neither 0 nor n is covered", 2)
 	for _, fn := range []string{"Minimize", "flattenRegion", "invertSegments", "InvertLinear", "InvertCircular", "BySegment.Less", "BySegment.Swap", "BySegment.Len"} {
@@ -79,7 +91,10 @@ func RegionAlgebra(p *core.Prog, r *core.Report, kMax int) {
 		}
 		return n
 	}
+	var mu sync.Mutex
 	record := func(rule, what string) {
+		mu.Lock()
+		defer mu.Unlock()
 		for _, f := range fails {
 			if f.rule == rule {
 				return
@@ -88,8 +103,12 @@ func RegionAlgebra(p *core.Prog, r *core.Report, kMax int) {
 		fails = append(fails, failure{rule, what})
 	}
 	for k := 1; k <= kMax && und == ""; k++ {
-		preorders(2*k, func(pr []int) {
-			if und != "" || len(fails) >= 2 {
+		k := k
+		work := func(pr []int) {
+			mu.Lock()
+			stop := und != "" || len(fails) >= 2
+			mu.Unlock()
+			if stop {
 				return
 			}
 			// non-empty inputs only
@@ -106,7 +125,9 @@ func RegionAlgebra(p *core.Prog, r *core.Report, kMax int) {
 			}
 			for _, zr := range []int{0, 1} {
 				for _, nr := range []int{maxr + 1, maxr + 2} {
+					mu.Lock()
 					orderings++
+					mu.Unlock()
 					rank := make([]int, 2+2*k)
 					rank[atomZero], rank[atomN] = zr, nr
 					for i, x := range pr {
@@ -138,13 +159,17 @@ func RegionAlgebra(p *core.Prog, r *core.Report, kMax int) {
 					desc := showRank(names(k), rank)
 					for _, arg := range shapes {
 						it := &Oti{p: p, rank: rank, zero: atomZero, limit: 200000}
+						mu.Lock()
 						evaluated++
+						mu.Unlock()
 						out, err := it.Call("Minimize", arg.clone())
 						if err != nil {
 							if _, isOut := err.(outside); isOut {
 								record("MINIMIZE", "Minimize: "+err.Error()+" for "+desc)
 							} else {
+								mu.Lock()
 								und = err.Error()
+								mu.Unlock()
 							}
 							continue
 						}
@@ -272,7 +297,25 @@ func RegionAlgebra(p *core.Prog, r *core.Report, kMax int) {
 					}
 				}
 			}
-		})
+		}
+		if workers <= 1 {
+			preorders(2*k, work)
+		} else {
+			ch := make(chan []int, 1024)
+			var wg sync.WaitGroup
+			for w := 0; w < workers; w++ {
+				wg.Add(1)
+				go func() {
+					defer wg.Done()
+					for pr := range ch {
+						work(pr)
+					}
+				}()
+			}
+			preorders(2*k, func(pr []int) { ch <- append([]int(nil), pr...) })
+			close(ch)
+			wg.Wait()
+		}
 	}
 	r.Extra["region_orderings"] = orderings
 	r.Extra["region_evaluations"] = evaluated
